@@ -699,3 +699,18 @@ v("c03-runtime-type-memo-by-name", "C03", "MEMO-KEY-COVER", E + "executor.py",
   "        runtime_type = self._runtime_types.get(runtime_type_name)\n        if runtime_type is not None:\n            return runtime_type\n        runtime_type = self.schema.get_type(runtime_type_name)\n\n        if runtime_type is None:\n",
   extra_edits=[{"file": E + "executor.py", "old": "        self._stream_usages: RefMap[FieldDetailsList, StreamUsage] = RefMap()\n", "new": "        self._stream_usages: RefMap[FieldDetailsList, StreamUsage] = RefMap()\n        self._runtime_types: dict[str, Any] = {}\n"},
                {"file": E + "executor.py", "old": "            raise GraphQLError(msg, to_nodes(field_details_list))\n\n        return runtime_type\n", "new": "            raise GraphQLError(msg, to_nodes(field_details_list))\n\n        self._runtime_types[runtime_type_name] = runtime_type\n        return runtime_type\n"}])
+
+# -- round 4: C05 ------------------------------------------------------------------------------------------
+v("c05-unfix-source-failure-cancels-items", "C05", "ERROR-KEEPS-ITEMS", E + "incremental/stream_item_queue.py",
+  "            pending = [future for future in self._pending_futures if not future.done()]\n            if pending:\n                await gather(*pending, return_exceptions=True)\n",
+  "            await self._settle_pending()\n")
+v("c05-delivery-group-map-shared", "C05", "PARAM-READONLY", E + "incremental/incremental_executor.py",
+  "        new_delivery_group_map: DeliveryGroupMap = RefMap(\n            None if delivery_group_map is None else delivery_group_map.items()\n        )\n",
+  "        new_delivery_group_map: DeliveryGroupMap = (\n            RefMap() if delivery_group_map is None else delivery_group_map\n        )\n")
+v("c05-settle-task-ignores-cancelled", "C05", "FUTURE-EXCEPTION-GUARD", E + "incremental/work_queue.py",
+  "                if future.cancelled():\n                    self._push(_TaskFailure(task, CancelledError()))\n                    return\n                error = future.exception()\n",
+  "                error = future.exception()\n")
+v("c05-settle-task-cancelled-in-try", "C05", "FUTURE-EXCEPTION-GUARD", E + "incremental/work_queue.py",
+  "                if future.cancelled():\n                    self._push(_TaskFailure(task, CancelledError()))\n                    return\n                error = future.exception()\n",
+  "                try:\n                    error = future.exception()\n                except CancelledError as cancelled:\n                    self._push(_TaskFailure(task, cancelled))\n                    return\n",
+  expect="silent")
